@@ -55,7 +55,7 @@ def _run_config(d, prog, cfg, store, call, idx, pre_cells=()):
     order = cfg["order"]
     n = len(prog["defs"])
     # permutation applied to non-alias defs, aliases/wrappers kept last
-    base = [i for i in range(n) if prog["defs"][i]["k"] not in ("alias", "wrapper")]
+    base = [i for i in range(n) if prog["defs"][i]["k"] not in ("alias", "wrapper")]   # ("query" statements move freely, but stay after their target)
     tail = [i for i in range(n) if prog["defs"][i]["k"] in ("alias", "wrapper")]
     # "mode" groups the definitions: e.g. every plain helper (or every variable) only after all memento functions, so that
     # versions computed at decoration time saw undefined symbols which are defined later without any further registration
@@ -125,7 +125,7 @@ def execute(case, scratch):
             if a["results"] != b["results"]:
                 out.violation("second process returned different values: %r vs %r" % (b["results"], a["results"]), symptom="values-differ")
         feats = progs.features(prog)
-        sensitive = ("inset" in feats) or ("dict-from-set" in feats) or ("fn-default" in feats) or sum(1 for dd in prog["defs"] if dd["k"] == "var") >= 2 or \
+        sensitive = ("inset" in feats) or ("dict-from-set" in feats) or ("fn-default" in feats) or ("version-query-at-import" in feats) or sum(1 for dd in prog["defs"] if dd["k"] == "var") >= 2 or \
             any(len(progs.edges(prog, f["name"])[0]) >= 2 for f in progs.fns(prog))
         differ = len({c["seed"] for c in cfgs}) > 1
         out.nontrivial = sensitive and differ
@@ -157,7 +157,7 @@ def strategy(thorough):
         lambda cs: [dict(c, seed=(c["seed"] if i != 1 or c["seed"] != cs[0]["seed"] else c["seed"] + 1)) for i, c in enumerate(cs)])
     rebind = st.one_of(st.none(), st.builds(lambda e, k: dict(e, kind=k), progs.edit_strategy(), st.sampled_from(["var", "var", "varmut", "varcopy"])))
     return st.builds(lambda p, c, rb: {"program": p, "configs": c, "rebind": rb},
-                     progs.program_strategy(max_fns=7 if thorough else 5, allow_hidden=False, allow_fdef=True, allow_dictset=True), cfgs, rebind)
+                     progs.program_strategy(max_fns=7 if thorough else 5, allow_hidden=False, allow_fdef=True, allow_dictset=True, allow_query=True), cfgs, rebind)
 
 
 def run_shard(ctx):
